@@ -1957,3 +1957,34 @@ CONTROLS['C03'] = [
       "        required_aggs = group.member_of\n"
       "        self.member_of = required_aggs\n"),
 ]
+
+CONTROLS['C03'] += [
+    M('c03-same-subtree-skipped-for-anchor', ACX,
+      "        if not _check_same_subtree(rp_uuids, rw_ctx.parent_uuid_by_rp_uuid):\n"
+      "            return False\n",
+      "        if areqs[0].anchor_root_provider_uuid in rp_uuids:\n"
+      "            continue\n"
+      "        if not _check_same_subtree(rp_uuids, rw_ctx.parent_uuid_by_rp_uuid):\n"
+      "            return False\n", 'R3.8'),
+    M('c03-isolate-passes-at-once', ACX,
+      "    if group_policy != 'isolate':\n"
+      "        # group_policy=\"none\" means no filtering\n"
+      "        return True\n",
+      "    if group_policy != 'isolate' or num_granular_groups < 2:\n"
+      "        return True\n", 'R3.8'),
+    M('c03-same-subtree-occurrence-dropped', 'placement/lib.py',
+      "                same_subtrees.append(suffixes)\n",
+      "                if suffixes not in same_subtrees[:1]:\n"
+      "                    same_subtrees.append(suffixes)\n", 'R3.9'),
+    M('c03-rps-in-aggs-from-shared-cache', RCX,
+      "            self.rps_in_aggs = provider_ids_matching_aggregates(\n"
+      "                context, self.member_of)\n",
+      "            self.rps_in_aggs = context.__dict__.setdefault(\n"
+      "                '_aggs', {}).setdefault(\n"
+      "                    str(self.member_of),\n"
+      "                    provider_ids_matching_aggregates(\n"
+      "                        context, self.member_of))\n", 'R3.10'),
+    B('c03-benign-same-subtree-comprehension', 'placement/lib.py',
+      "                same_subtrees.append(suffixes)\n",
+      "                same_subtrees += [suffixes]\n"),
+]
